@@ -61,11 +61,16 @@ partial def ME.text : ME → String
     -- chains of `+` / `*` are written flat (`a + b + c`): the parser needs time exponential in the
     -- parenthesis depth; the comparison flattens such chains on both sides
     let assoc : Bool := (match op with | .add | .mul => true | _ => false)
-    let side (e : ME) : String :=
+    let leftAssoc : Bool := (match op with | .implies => false | _ => true)
+    let left (e : ME) : String :=
+      match e with
+      | .bin op' _ _ => if leftAssoc && op' == op then e.text else "(" ++ e.text ++ ")"
+      | _ => e.text
+    let right (e : ME) : String :=
       match e with
       | .bin op' _ _ => if assoc && op' == op then e.text else "(" ++ e.text ++ ")"
       | _ => e.text
-    side a ++ " " ++ binText op ++ " " ++ side b
+    left a ++ " " ++ binText op ++ " " ++ right b
   | .blk k es => k.text ++ "{ " ++ ", ".intercalate (es.map ME.text) ++ " }"
   | .agg k _ body => k.text ++ "(?) { " ++ body.text ++ " }"
 
